@@ -75,6 +75,35 @@ def setup_stubs(it):
     it.call_overrides["PythonCodeGen.generate"] = gen_generate
 
 
+_DIGEST = {}
+
+
+def discover_digest():
+    """Which digest does recompile() store as checksum?  Probe: construct an evaluator from a symbolic text with a
+    successful compile and read the stored term (so a change of the checksum algorithm is not mistaken for a defect)."""
+    if "fn" in _DIGEST:
+        return _DIGEST["fn"]
+    fn = digest_fn("md5")
+
+    def entry(it):
+        env = it.import_module(EVAL)
+        cls = env.vars["ExperimentEvaluator"]
+        inst = it.call(cls, [SStr(z3.String("t_probe"))], {})
+        return inst.attrs.get("_checksum")
+    try:
+        run = api.run(entry, opts={"float_mode": "real", "prune": True}, setup=setup_stubs)
+        for p in run.paths:
+            if isinstance(p.outcome, Return) and isinstance(p.outcome.value, SHex):
+                t = p.outcome.value.term
+                if z3.is_app(t) and t.decl().kind() == z3.Z3_OP_UNINTERPRETED and t.num_args() == 1:
+                    fn = t.decl()
+                    break
+    except Exception:
+        pass
+    _DIGEST["fn"] = fn
+    return fn
+
+
 def step(kind):
     """entry(interp) -> snapshot tuple"""
     def entry(it):
@@ -82,7 +111,7 @@ def step(kind):
         cls = env.vars["ExperimentEvaluator"]
         t_old = z3.String("t_old")
         t_new = SStr(z3.String("t_new"))
-        md5 = digest_fn("md5")
+        md5 = discover_digest()
         other = PyInstance(cls)
         other.attrs["_checksum"] = SHex(md5(z3.String("t_other")))
         other_fn = OldFn("other-function")
@@ -134,7 +163,7 @@ def step(kind):
 
 
 def checksum_term(v):
-    if isinstance(v, SHex) and v.nbits == 128:
+    if isinstance(v, SHex):
         return v.term
     return None
 
@@ -147,7 +176,7 @@ def analyse(kind, timeout_ms):
     out["paths"] = len(run.paths)
     out["encoded"] = run.encoded_digest()
     out["stubs"] = run.notes
-    md5 = digest_fn("md5")
+    md5 = discover_digest()
     for p in run.paths:
         if isinstance(p.outcome, Unsup):
             r, m = common.check(tally, p.conds, timeout_ms)
